@@ -342,3 +342,83 @@ Example C15_refresher_nonvacuous :
   (reach rf_cf rf_st0 /\ later rf_cf rf_st0 rf_st1 /\ reach rf_cf rf_st1 /\ tstep rf_snap rf_err /\ err_live rf_err 1 /\
    (exists it, In it (q_items (k_ret (snd rf_st1))) /\ ri_del it = false /\ ri_pk it = o_pk rf_o /\ ri_inq it = true)).
 Proof. exact (conj rf_saw (conj rf_unchanged_and_changed rf_retry_state)). Qed.
+
+(* ------------------------------------------------------------------------------------------------------------
+   reconciler/types.go StatusSet — the data structure behind "a status-only change by a second reconciler".
+   In Model.v a reconciler's view of an object's status is (o_kind, o_sid) and what the other writers own is
+   o_aux; here the set those projections are taken from is modelled as coded (Reconciler/StatusSet.v: global id
+   counter, NewStatusSet, Pending, Set with its replace-or-append-and-sort, Get with its default for a
+   reconciler not seen yet) and compared with the implementation by the engine `sset` (every value ever built
+   is re-read after every later operation). `ss_wf` = entries strictly sorted by name. *)
+From SV Require Import Base.Bytes Base.OrdMap Reconciler.StatusSet Reconciler.StatusSetProofs.
+
+(* Set is the ordered-map insert; it keeps the set id and the invariant *)
+Theorem C15_statusset_set_is_insert : forall s n st, ss_wf s ->
+  ss_id (ss_set s n st) = ss_id s /\ ss_list (ss_set s n st) = om_insert n st (ss_list s) /\ ss_wf (ss_set s n st).
+Proof. exact (fun s n st H => conj (proj1 (ss_set_is_insert s n st H)) (conj (proj2 (ss_set_is_insert s n st H)) (ss_set_wf s n st H))). Qed.
+Print Assumptions C15_statusset_set_is_insert.
+
+(* a reconciler reads back what it wrote; its write changes nothing it does not own (the set id and every other
+   reconciler's entry: the model's o_aux), and another reconciler's write does not change what it reads
+   (the model's stat/statx writes change o_aux only) *)
+Theorem C15_statusset_own_and_foreign_writes : forall me other s st, ss_wf s ->
+  view me (ss_set s me st) = st /\
+  others me (ss_set s me st) = others me s /\
+  (me <> other -> view me (ss_set s other st) = view me s).
+Proof.
+  exact (fun me other s st H => conj (ss_get_set_same s me st H)
+          (conj (own_write_keeps_others me s st H) (foreign_write_keeps_view me other s st H))).
+Qed.
+Print Assumptions C15_statusset_own_and_foreign_writes.
+
+(* Pending(): every reconciler - with an entry or not - reads Pending with the new id; the names are kept; and
+   that id is carried by no value built before (ids_le g old: all ids of `old` were drawn from the counter), so
+   the "same pending id" fallback of commitStatus cannot take the re-marked object for the one reconciled *)
+Theorem C15_statusset_pending : forall s g old n m, ss_wf s -> ids_le g old ->
+  ss_get (fst (ss_pending s g)) n = mkSt Pending (g + 1) /\
+  map fst (ss_list (fst (ss_pending s g))) = map fst (ss_list s) /\
+  ss_wf (fst (ss_pending s g)) /\
+  st_id (ss_get (fst (ss_pending s g)) n) <> st_id (ss_get old m).
+Proof.
+  exact (fun s g old n m Hw Ho => conj (ss_get_pending s g n) (conj (ss_pending_names s g)
+          (conj (ss_pending_wf s g Hw) (pending_id_is_fresh g s old n m Ho)))).
+Qed.
+Print Assumptions C15_statusset_pending.
+
+(* every value an arbitrary program of New / Pending / Set builds is well-formed with ids below the counter
+   (so the hypotheses above hold of every reachable value), and no operation changes a value built earlier *)
+Theorem C15_statusset_values_reachable_and_persistent : forall m, sm_inv m ->
+  (sm_inv (sm_new m) /\ forall j, sm_inv (sm_pending m j) /\ forall n k, sm_inv (sm_set m j n k)) /\
+  forall i, (i < length (sm_vals m))%nat ->
+    sm_val (sm_new m) i = sm_val m i /\
+  forall j, sm_val (sm_pending m j) i = sm_val m i /\ forall n k, sm_val (sm_set m j n k) i = sm_val m i.
+Proof.
+  exact (fun m H => conj (conj (sm_inv_new m H) (fun j => conj (sm_inv_pending m j H) (fun n k => sm_inv_set m j n k H)))
+          (fun i Hi => conj (sm_new_keeps m i Hi) (fun j => conj (sm_pending_keeps m j i Hi) (fun n k => sm_set_keeps m j n k i Hi)))).
+Qed.
+Print Assumptions C15_statusset_values_reachable_and_persistent.
+
+(* the two seeded Pending() variants (S-C15-1: keeps the set id; S2-C14-3: keeps the per-entry ids): a
+   reconciler reads the same (Pending, id) before and after the user re-marked the object *)
+Theorem C15_statusset_pending_keep_set_id_refuted :
+  let s := fst (ss_new 0) in
+  let s' := fst (ss_pending_keep_set_id s 1) in
+  ss_wf s /\ ids_le 1 s /\ view [114] s' = view [114] s /\ view [114] (fst (ss_pending s 1)) <> view [114] s.
+Proof. exact pending_keep_set_id_refuted. Qed.
+Print Assumptions C15_statusset_pending_keep_set_id_refuted.
+
+Theorem C15_statusset_pending_keep_entry_ids_refuted :
+  let s := ss_set (fst (ss_new 0)) [114] (mkSt Pending 2) in
+  let s' := fst (ss_pending_keep_entry_ids s 2) in
+  ss_wf s /\ ids_le 2 s /\ view [114] s' = view [114] s /\ view [114] (fst (ss_pending s 2)) <> view [114] s.
+Proof. exact pending_keep_entry_ids_refuted. Qed.
+Print Assumptions C15_statusset_pending_keep_entry_ids_refuted.
+
+Example C15_statusset_nonvacuous :
+  let m := sm_set (sm_set (sm_new sm_init) 0 [114] Done) 1 [115] Error in
+  sm_inv m /\ ss_all (sm_val m 2) = [([114], mkSt Done 2); ([115], mkSt Error 3)] /\
+  ss_get (sm_val m 2) [116] = mkSt Pending 1 /\
+  ss_all (fst (ss_pending (sm_val m 2) (sm_gen m))) = [([114], mkSt Pending 4); ([115], mkSt Pending 4)].
+Proof.
+  split; [apply sm_inv_set, sm_inv_set, sm_inv_new, sm_inv_init|]. vm_compute. repeat split.
+Qed.
